@@ -50,3 +50,23 @@ func Check(r *Rev, sums []string) error {
 	}
 	return nil
 }
+
+func CountPos(xs []int) int {
+	n := 0
+	for _, x := range xs {
+		if x > 0 {
+			n++
+		}
+	}
+	return n
+}
+
+func FilterPos(xs []int) []int {
+	out := make([]int, 0, len(xs))
+	for _, x := range xs {
+		if x > 0 {
+			out = append(out, x)
+		}
+	}
+	return out
+}
